@@ -388,6 +388,38 @@ def hmmState (p : List α) (prob : α) (dflt : Option Nat) : R Nat :=
     | some d => .ok d
     | none => .error .ub
 
+/-- the running remainders of the subtractive search: `rem_j = u - p_0 - … - p_j` (the arithmetic of the code) -/
+def remainders : α → List α → List α
+  | _, [] => []
+  | prob, q :: qs => (prob - q) :: remainders (prob - q) qs
+
+/-- the law of one state of the chain as a predicate on (row, draw, state): `rem_i < 0` and no earlier
+remainder is — for a non-negative row: `Σ_{j<i} p_j ≤ u < Σ_{j≤i} p_j` (`hmm_step_law`) -/
+def hmmStepOk (p : List α) (u : α) (i : Nat) : Bool :=
+  let r := remainders u p
+  match r[i]? with
+  | none => false
+  | some ri => Scalar.ltb ri (Scalar.ofInt 0) && (r.take i).all (fun x => !(Scalar.ltb x (Scalar.ofInt 0)))
+
+/-- the first state: as above, or the initial value `sta = 0` when no remainder is negative -/
+def hmmFirstOk (eq : List α) (u : α) (s : Nat) : Bool :=
+  hmmStepOk eq u s || (s == 0 && (remainders u eq).all (fun x => !(Scalar.ltb x (Scalar.ofInt 0))))
+
+/-- every following state lies on the step of its own draw within the transition row of its predecessor -/
+def hmmChainOk (rows : List (List α)) : Nat → List α → List Nat → Bool
+  | _, [], [] => true
+  | prev, u :: us, s :: ss =>
+    (match rows[prev]? with
+     | some row => hmmStepOk row u s
+     | none => false) && hmmChainOk rows s us ss
+  | _, _, _ => false
+
+/-- the law of a sampled chain given its draws (one per state) -/
+def hmmSampleLawOk (eq : List α) (rows : List (List α)) : List α → List Nat → Bool
+  | [], [] => true
+  | u :: us, s :: ss => hmmFirstOk eq u s && hmmChainOk rows s us ss
+  | _, _ => false
+
 /-- the states after the first one; `row s` is the transition row of state `s` -/
 def hmmChain (rows : List (List α)) : Nat → Nat → List α → R (List Nat)
   | _, 0, _ => .ok []
